@@ -87,6 +87,7 @@ def _case(draw):
                        for j in sel]
     err = draw(st.sampled_from([None] * 20 + ['len_at', 'len_gain', 'len_res', 'scalar_for_list', 'array_no_at']))
     return dict(spec=spec, container=container, form=form, sel=sel, spell=spell, over=over, err=err,
+                seq=draw(st.sampled_from(['list', 'list', 'tuple', 'nparr'])),
                 order_seed=draw(st.integers(0, 2 ** 16)))
 
 
@@ -151,7 +152,14 @@ def check(case, obs):
     if is_array:
         data = data.astype(data.dtype.newbyteorder('='))
     chs = [_spell(j, sp, names, is_array) for j, sp in zip(sel, case['spell'])]
-    ch_arg = None if form == 'none' else (chs[0] if form == 'scalar' else chs)
+    seq = case.get('seq', 'list')
+    chs_arg = chs
+    if form == 'list' and seq == 'tuple':
+        chs_arg = tuple(chs)
+    elif form == 'list' and seq == 'nparr' and chs and all(isinstance(c, int) for c in chs):
+        chs_arg = np.array(chs)                  # NumPy integer positions: converted correctly or refused
+        obs.label('numpy_positions')
+    ch_arg = None if form == 'none' else (chs[0] if form == 'scalar' else chs_arg)
     kw = _kw(over, form)
     obs.label('container:' + case['container'], 'form:' + form, 'dtype:' + spec['datatype'])
 
@@ -180,6 +188,9 @@ def check(case, obs):
     out = call(tr.to_rfi, data, ch_arg, **kw)
     after = fingerprint(data)
     obs.claim('input_intact', not fp_diff(before, after), lambda: 'to_rfi changed its argument: %r' % fp_diff(before, after))
+    if isinstance(chs_arg, np.ndarray) and raised(out):
+        obs.claims['refuse'] += 1            # a form outside the documented ones may be refused
+        return
     if not obs.claim('returns', not raised(out), lambda: 'to_rfi(%r, %r) raised %r' % (ch_arg, kw, out)):
         return
     x = np.array(expand(spec), dtype=np.float64).reshape((-1, D))
